@@ -137,3 +137,9 @@ def obligations(ctx, cfg):
             StepPull(ctx, 1, 3 if q else 4, 0, 'fifo', 'C08.c-pull'),
             StepModify(ctx, 2, 2, 2, 'fifo', 'C08.c-nack'),
             StepExpire(ctx, 2, 2, 0, 'deadline', 'C08.c-expire')]
+
+
+def kani_harnesses(cfg):
+    q = cfg['tier'] == 'quick'
+    hs = [{'id': 'K4-message-id', 'harness': 'k4_message_id_new', 'quick': True, 'desc': 'MessageId::new on the compiled code: value == a*2^32+b and injective, all u32 x u32'}]
+    return [h for h in hs if not q or h.get('quick')]
